@@ -188,7 +188,7 @@ pub fn gen_case(rng: &mut Rng, max_streams: usize, budget_bytes: usize) -> MuxCa
     }
     let mut streams = Vec::new();
     for i in 0..n {
-        let mut dir = |rng: &mut Rng, budget: &mut usize, force_first: bool| {
+        let dir = |rng: &mut Rng, budget: &mut usize, force_first: bool| {
             let mut chunks = gen_chunks(rng, budget, big_ok);
             if force_first && chunks.is_empty() {
                 chunks.push(rng.usize(0, 40));
